@@ -6,6 +6,7 @@ import (
 	"strconv"
 	"strings"
 
+	"github.com/samaritan-proxy/samaritan/proc/redis"
 	"github.com/samaritan-proxy/samaritan/proc/redis/hotkey"
 
 	"verifharness/hx"
@@ -96,6 +97,41 @@ func (c19) Exec(op string) string {
 		return "bad-op"
 	}
 	switch f[0] {
+	case "c19.flt":
+		// c19.flt <cmd hex>:<key hex>…   request bodies [cmd, key, "v"] (or [cmd] when the key is '-') through the real hot-key filter of a
+		// backend connection with a counter of capacity 255 -> the counter's content: <key hex>=<count>, sorted
+		return recoverStr(func() string {
+			var bodies []*redis.RespValue
+			for _, tk := range f[1:] {
+				p := strings.SplitN(tk, ":", 2)
+				if len(p) != 2 {
+					return "bad-op"
+				}
+				cmd, err := hx.Unhex(p[0])
+				if err != nil {
+					return "bad-op"
+				}
+				if p[1] == "-" {
+					bodies = append(bodies, hx.Bulks(cmd))
+					continue
+				}
+				key, err := hx.Unhex(p[1])
+				if err != nil {
+					return "bad-op"
+				}
+				bodies = append(bodies, hx.Bulks(cmd, key, []byte("v")))
+			}
+			m := redis.VerifHotKeyFilter(255, bodies)
+			var rows []string
+			for k, n := range m {
+				rows = append(rows, fmt.Sprintf("%s=%d", hx.Hex([]byte(k)), n))
+			}
+			sort.Strings(rows)
+			if len(rows) == 0 {
+				return "-"
+			}
+			return strings.Join(rows, ",")
+		})
 	case "c19.cnt":
 		capa, err := strconv.Atoi(f[1])
 		if err != nil || capa < 0 || capa > 255 {
@@ -269,6 +305,22 @@ func (c19) Exec(op string) string {
 
 func (c19) Gen(r *hx.Run) {
 	rng := r.Rng
+	// key names through the hot-key filter: short, long (beyond any plausible truncation), sharing long prefixes, binary; commands without a key
+	hexs := func(s string) string { return hx.Hex([]byte(s)) }
+	for i := 0; i < r.N(60, 1200); i++ {
+		base := strings.Repeat("k", []int{1, 8, 63, 64, 65, 127, 128, 129, 200, 255, 256, 257, 1000, 5000}[rng.Intn(14)])
+		pool := []string{base, base + "a", base + "b", "short", string([]byte{0, 255, 13, 10, 32}), base[:len(base)/2+1]}
+		var tk []string
+		for j := 0; j < 1+rng.Intn(12); j++ {
+			cmd := []string{"get", "set", "GET", "hget", "del", "eval", "cluster", "auth", "scan", "incr"}[rng.Intn(10)]
+			if rng.Intn(12) == 0 {
+				tk = append(tk, hexs(cmd)+":-")
+				continue
+			}
+			tk = append(tk, hexs(cmd)+":"+hexs(pool[rng.Intn(len(pool))]))
+		}
+		r.Do("c19.flt "+strings.Join(tk, " "), true, "flt")
+	}
 	// counter sequences
 	caps := []int{0, 1, 2, 3, 4, 5, 6, 50, 255}
 	for i := 0; i < r.N(1500, 30000); i++ {
